@@ -324,7 +324,9 @@ def harnesses(tier):
                 continue
             for inp in ref.fock_states(n, k):
                 u4.append(dict(shape=shape, k=k, herald=None, inp=tuple(inp)))
-    for shape, k, herald in (("tri-loss", 2, (1, 2, 0)), ("tri", 2, (0, 1, 1)), ("tri-loss", 1, (0, 0, 2)), ("tri", 3, (1, 0, 2))):
+    for shape, k, herald in (("tri-loss", 2, (1, 2, 0)), ("tri", 2, (0, 1, 1)), ("tri-loss", 1, (0, 0, 2)), ("tri", 3, (1, 0, 2)),
+                             # every photon on a heralded mode: the user's input is the vacuum
+                             ("tri", 1, (1, 0, 2)), ("tri-loss", 1, (1, 2, 0)), ("tri", 2, (2, 1, 1))):
         n = SHAPES[shape][0]
         if _space(n + _n_loss(shape), k) > cap:
             continue
